@@ -125,3 +125,4 @@ def worker_threads_rule(ctx):
            "%s: a worker id without a thread has a global queue that nobody drains - coroutines routed to it never run" % bad[1], f.where(bad[0] if bad else spawns[0]))
     shared.scheduler_drain_rules(ctx)
     ctx.import_rules("C02", r"^atomic-option/")
+    ctx.import_rules("C13", r"^fwd/join-set-panic-data|^pooled-stack-only-for-default-size|^own-stack-for-other-sizes")
